@@ -752,3 +752,97 @@ example : Acceptable (.dict tcpFull) := by
   exact accepted_record_is_wellshaped envA 0 (.dict tcpFull) 0 (by simp [shaped, hg, hne, envA])
 
 end MitmVerif.Props.C36
+
+-- owner round 6 (audit item N2): the remaining main-branch witnesses
+namespace MitmVerif.Props.C36
+open MitmVerif MitmVerif.C36
+
+/-- the complete tcp state of the audit, written in flow format 20 -/
+private def tcpFull20 : List (Value × Value) :=
+  tcpFull.map (fun p => match p.1 with
+    | .str u => if u == sb "version" then (p.1, Value.int 20) else p
+    | _ => p)
+
+-- `converted_accept_needs_convertible` in its `.current` branch: the format-20 record is converted (version 21 written),
+-- dispatched to `tcp`, and the CONVERTED state has a good shape
+example : gate (.dict tcpFull20) = .defer ∧
+    (match convert tcpFull20 with
+      | .current ty d => ty == sb "tcp" && decide (shape ty d = .good) &&
+          (match C38Conv.dget d (sb "version") with | some (Value.int n) => n == 21 | _ => false)
+      | _ => false) = true := by decide +kernel
+
+example : (match convert tcpFull20 with
+      | .refusedV => False
+      | .refusedX => False
+      | .current ty d => shape ty d ≠ .bad
+      | .notModelled => True) := by
+  have hg : gate (.dict tcpFull20) = .defer := by decide +kernel
+  refine converted_accept_needs_convertible envA 0 tcpFull20 0 hg ?_
+  have hc : (match convert tcpFull20 with | .current ty d => decide (shape ty d ≠ .bad) | _ => false) = true := by decide +kernel
+  rw [converted_fromState]
+  simp only [hg]
+  cases hcv : convert tcpFull20 with
+  | refusedV => rw [hcv] at hc; simp at hc
+  | refusedX => rw [hcv] at hc; simp at hc
+  | notModelled => rw [hcv] at hc; simp at hc
+  | current ty d =>
+    rw [hcv] at hc
+    have hs : ¬ (shape ty d = .bad) := by simpa using hc
+    simp [hs, envA]
+
+-- `illshaped_record_stops_reader` with a NON-EMPTY good prefix: the complete tcp record becomes flow 0, the bare one ends the read
+example : readAll (shaped envA) (encList [.dict tcpFull] ++ (enc recTcpBare ++ [0x78])) = ([0], .flowRead) := by
+  have hgate : gate (mirror (.dict tcpFull)) = .pass (sb "tcp") := by decide +kernel
+  have hshape : (match mirror (.dict tcpFull) with | .dict kvs => decide (shape (sb "tcp") kvs = .good) | _ => false) = true := by
+    decide +kernel
+  have hg : Good (shaped envA) 0 [.dict tcpFull] [0] := by
+    simp only [Good, and_true]
+    refine ⟨?_, ?_, ?_, ?_, ?_, ?_⟩
+    · have : (tcpFull.all (fun p => hashable p.1)) = true := by decide +kernel
+      simp only [WF]
+      rw [WFPairs_iff]
+      intro p hp
+      have hall : ∀ q ∈ tcpFull, WF q.1 ∧ hashable q.1 = true ∧ WF q.2 := by
+        have hk : tcpFull.all (fun q => (match q.1 with | .str u => utf8Valid u | _ => false) &&
+            (match q.2 with
+              | .null => true | .int i => decide ((natDec i.natAbs).length ≤ maxStrDigits) | .str u => utf8Valid u
+              | .list [] => true
+              | .dict kvs => kvs.all (fun r => (match r.1 with | .str u => utf8Valid u | _ => false) && (match r.2 with | .null => true | _ => false))
+              | _ => false)) = true := by decide +kernel
+        intro q hq
+        have hq' := List.all_eq_true.mp hk q hq
+        obtain ⟨k, v⟩ := q
+        cases k <;> simp at hq'
+        rename_i u
+        refine ⟨by simpa [WF] using hq'.1, by simp [hashable], ?_⟩
+        cases v <;> simp at hq'
+        · simp [WF]
+        · simpa [WF] using hq'.2
+        · simpa [WF] using hq'.2
+        · rename_i l; cases l <;> simp at hq' <;> simp [WF, WFList]
+        · rename_i kvs
+          simp only [WF]
+          rw [WFPairs_iff]
+          intro r hr
+          have := List.all_eq_true.mp hq'.2 r hr
+          obtain ⟨rk, rv⟩ := r
+          cases rk <;> simp at this
+          cases rv <;> simp at this
+          exact ⟨by simpa [WF] using this, by simp [hashable], by simp [WF]⟩
+      exact hall p hp
+    · rfl
+    · decide +kernel
+    · decide +kernel
+    · decide +kernel
+    · cases hm : mirror (.dict tcpFull) with
+      | dict kvs =>
+        rw [hm] at hgate hshape
+        have hs : shape (sb "tcp") kvs = .good := by simpa using hshape
+        simp [shaped, hgate, hs, envA]
+      | _ => rw [hm] at hshape; simp at hshape
+  refine illshaped_record_stops_reader envA (by intro i v h; cases h) [.dict tcpFull] [0] hg recTcpBare [0x78] ?_ (by decide +kernel)
+    (by decide +kernel) (by decide +kernel) (by decide +kernel) (sb "tcp")
+    [kv "version" (.int 21), kv "type" (.str "tcp".toUTF8.toList)] rfl (by decide +kernel) (by decide +kernel)
+  simp [recTcpBare, kv, WF, WFPairs, hashable, utf8Valid, maxStrDigits]; decide +kernel
+
+end MitmVerif.Props.C36
